@@ -2,7 +2,7 @@
    Each is closed by [exact] of a lemma of Proofs.v / ProofsExtract.v about the hand-written models of
    Model.v, which tools/props/c06.py ties to /repo by exact correspondences evaluated inside Coq. *)
 From Coq Require Import ZArith List Bool Lia Ring_theory Sorting.Sorted Sorting.Permutation.
-From PP Require Import C06.Model C06.Proofs.
+From PP Require Import C06.Model C06.Proofs C06.ModelExtract C06.ProofsExtract.
 Import ListNotations.
 Open Scope Z_scope.
 
@@ -82,6 +82,54 @@ Proof.
 Qed.
 Print Assumptions sum_by_group_spec_meaning.
 
+(* 3. relabel invariance of positions: pit order is table row order, so a relabelling that is injective on the
+      junction labels (and any map on the table's own labels), applied consistently to the references, changes
+      only ELEMENT_IDX; FROM_NODE / TO_NODE of all sections (np.insert chaining) are unchanged *)
+Theorem mk_pit_relabel_invariant : forall (rj rp : Z -> Z) js w int_start,
+  NoDup js -> (forall a b, In a js -> In b js -> rj a = rj b -> a = b) ->
+  (forall l, In l (w_from w) -> In l js) -> (forall l, In l (w_to w) -> In l js) ->
+  snd (pit_of (map rj js) (relabel_table rj rp w) int_start) = snd (pit_of js w int_start)
+  /\ fst (pit_of (map rj js) (relabel_table rj rp w) int_start) = map rp (fst (pit_of js w int_start)).
+Proof. exact pit_relabel_invariant. Qed.
+Print Assumptions mk_pit_relabel_invariant.
+
+(* 6. placement of extracted multi-section results, for every duplicate-free labelling and all section counts *)
+(* 6a. from / to values: row r gets the value at its own first / last section iff that section is connected *)
+Theorem extract_end_values_placement : forall V (d : V) secs (conn : list bool) (vals old : list V),
+  (forall s, In s secs -> (0 < s)%nat) ->
+  length conn = fold_right plus 0%nat secs -> length vals = fold_right plus 0%nat secs -> length old = length secs ->
+  place_ext conn (blocks_mask (first_blocks secs)) vals old = Some (expect_rows d (first_blocks secs) conn vals old)
+  /\ place_ext conn (blocks_mask (last_blocks secs)) vals old = Some (expect_rows d (last_blocks secs) conn vals old).
+Proof. intros V d. exact (end_node_placement d). Qed.
+Print Assumptions extract_end_values_placement.
+
+(* 6b. last-section results (t_outlet_k), code as repaired in aef289a: last sections are the index changes in
+   pit order; row r gets the value of its own last section iff that section is connected *)
+Theorem extract_last_section_placement : forall V (d : V) labels secs (conn : list bool) (vals old : list V),
+  length secs = length labels -> NoDup labels -> (forall s, In s secs -> (0 < s)%nat) ->
+  length conn = fold_right plus 0%nat secs -> length vals = fold_right plus 0%nat secs ->
+  length old = length labels ->
+  place_last d (idx_pit_of labels secs) conn vals old = Some (expect_rows d (last_blocks secs) conn vals old).
+Proof. intros V d. exact (last_section_placement d). Qed.
+Print Assumptions extract_last_section_placement.
+
+(* 6c. section means: the j-th group of the grouped sum over ELEMENT_IDX is the row with the j-th smallest label -
+   the row to which placement_table = argsort(table index) sends it - and its sum is the sum over that row's
+   own sections (any commutative ring; any valid argsort) *)
+Section RingMean.
+  Context {A : Type} (zero one : A) (add mul sub : A -> A -> A) (opp : A -> A)
+          (Rth : ring_theory zero one add mul sub opp eq).
+  Theorem extract_mean_groups_are_rows : forall labels secs (vals : list A) order j,
+    length secs = length labels -> NoDup labels -> (forall s, In s secs -> (0 < s)%nat) ->
+    length vals = fold_right plus 0%nat secs ->
+    Permutation order (seq 0 (length labels)) -> Sorted Z.le (permute 0 order labels) -> (j < length labels)%nat ->
+    let res := sbg_spec zero add (idx_pit_of labels secs) vals in
+    nth j (fst res) 0 = nth (nth j order 0%nat) labels 0
+    /\ nth j (snd res) zero = lsum zero add (row_block secs vals (nth j order 0%nat)).
+  Proof. exact (mean_groups_are_rows zero one add mul sub opp Rth). Qed.
+End RingMean.
+Print Assumptions extract_mean_groups_are_rows.
+
 (* non-vacuity: unsorted, sparse, large labels; both dispatch outcomes on concrete keys *)
 Example lookup_example :
   let idx := [100007; 3; 52; 0] in
@@ -96,4 +144,14 @@ Example sbg_example :
   /\ sbg 0 Z.add Z.sub true true (argsort [100007; 3; 100007]) [100007; 3; 100007] [1; 10; 100]
     = ([3; 100007], [10; 101])
   /\ bucket_cond [100007; 3; 100007] = false.
+Proof. vm_compute. repeat split. Qed.
+
+(* the labelling that exposed the former t_outlet_k misplacement: labels [7;3;5], sections [1;3;2] *)
+Example t_outlet_example :
+  place_last 0 (idx_pit_of [7; 3; 5] [1; 3; 2]%nat) [true; true; true; true; true; true]
+             [10; 20; 21; 22; 30; 31] [-1; -1; -1] = Some [10; 22; 31]
+  /\ place_mean false [7; 3; 5] (idx_pit_of [7; 3; 5] [1; 3; 2]%nat) [true; true; true; true; true; true]
+                [12; 24; 36; 48; 10; 20] [-1; -1; -1] = [12; 36; 15]
+  /\ snd (pit_of [40; 10; 30] {| w_labels := [7; 3]; w_from := [10; 30]; w_to := [30; 40]; w_secs := [3; 1]%nat |} 3)
+     = [(1, 3); (3, 4); (4, 2); (2, 0)].
 Proof. vm_compute. repeat split. Qed.
